@@ -12,18 +12,18 @@ TECH = {
  'C06': 'differential runtime monitor: emitted text/digits vs divmod model, parser vs explicit grammar recogniser, pad_integral model + primitive-twin oracle; std and no_std builds',
  'C07': 'differential runtime monitor vs CPython two\'s-complement int semantics for & | ^ ! << >> bit/set_bit/queries over all shift types',
  'C08': 'differential runtime monitor: range model for integer conversions, exact integer round-half-even model for floats compared as bit patterns',
- 'C09': 'differential runtime monitor vs int.to_bytes/from_bytes; exhaustive iterator call-sequence enumeration against a deque model',
+ 'C09': 'differential runtime monitor vs int.to_bytes/from_bytes (inherent + ToBytes/FromBytes incl. native-endian); exhaustive iterator call-sequence enumeration (next/next_back/nth/nth_back/len/size_hint + 16 consumers) against a deque model; Miri i686 cross-target log equality',
  'C10': 'in-process form-agreement monitor (every operator form vs ref-ref on fresh clones, value and panic-ness) + model check of the canonical result',
  'C11': 'runtime monitor asserting r^n <= x < (r+1)^n on every returned root; std and no_std builds; step budget on the Newton loop',
  'C12': 'differential runtime monitor vs CPython ** over all exponent types and forms',
  'C13': 'runtime monitor: math.gcd model + Bezout identity / multiple-of definitions asserted on results; step budget on the Stein loop',
  'C14': 'panic-ness oracle over the union of all workloads in debug and release + failure table; process-death attribution; logical step budgets',
- 'C15': 'sanitizers: guard-page allocator (end/start modes) under exhaustive length sweep, valgrind memcheck, AddressSanitizer, operand-mutation and ASCII monitors',
+ 'C15': 'sanitizers: guard-page allocator (end/start modes, std and no_std builds of the library, operands write-protected) under exhaustive length sweep, valgrind memcheck, Miri (aarch64, s390x), AddressSanitizer, hardware-fault attribution, operand-mutation and ASCII monitors',
  'C16': 'build-matrix observation (cargo check/build per configuration) + cross-configuration event-log equality monitor, each log model-checked',
- 'C17': 'recording Serializer / token-replay Deserializer monitor vs token-grammar model',
- 'C18': 'logged byte-stream RNG + independent stream-decoding model (value and bytes consumed), exhaustive first-draw enumeration for small bounds',
+ 'C17': 'recording Serializer vs token-grammar model; token-replay Deserializer (all carrier widths, size hints, in-place) and a strict untagged length-prefixing reader re-reading every recorded serialisation; Miri i686 cross-target log equality',
+ 'C18': 'logged byte-stream RNG + independent stream-decoding model (value and bytes consumed) for gen_biguint / bounded sampling, range + canonical + coverage + RandomBits-agreement monitors for gen_bigint, exhaustive first-draw enumeration for small bounds; Miri i686/s390x cross-target log equality',
  'C19': 'differential runtime monitor vs CPython sign/abs/max; exhaustive Sign tables',
- 'C20': 'hooked deterministic work counter around products on fixed dense operands, ratio/bound monitor; products digest-checked; no timing',
+ 'C20': 'hooked deterministic work counter around products on fixed dense operands (every public route to a product, std and no_std builds, balanced / near-balanced / unbalanced shapes), ratio/bound monitor; products digest-checked; no timing',
 }
 NOTE = {
  'C15': 'assumes faults inside sub-slices of one allocation are caught by value oracles (C02/C03/C06), not by allocator-level tools; the asm operand-constraint mismatch is unobservable at run time',
